@@ -60,11 +60,20 @@ def run(fx, chk, tier):
                     wild_ok = names == ["skip_box"] and not [m for m, _ in hirq.walk(a["body"]) if m.get("k") in ("assign", "assignop")]
     # ---- encoder table
     enc = {}
+    cands = [fw]
     for n, _ in hirq.walk(hirq.body_root(fw)):
-        if n.get("k") == "match" and n.get("src") == "match" and hirq.path_str(n["scrut"]) == "key":
-            for pat, res, arm in tables.match_table(fx, n):
-                if pat[0] == "variant" and res[0] == "variant":
-                    enc[last(pat[1])] = last(res[1])
+        if n.get("k") in ("call", "mcall"):
+            g = n.get("resolved") or n.get("fn")
+            if g in fx.fns and fx.fns[g] not in cands and (fx.fns[g].get("span") or {}).get("file") == (fw.get("span") or {}).get("file"):
+                cands.append(fx.fns[g])
+    for cf in cands:
+        for n, _ in hirq.walk(hirq.body_root(cf)):
+            if n.get("k") == "match" and n.get("src") == "match":
+                t_ = tables.match_table(fx, n)
+                if t_ and all(pat[0] == "variant" and "MetadataKey" in (pat[1] or "") for pat, res, arm in t_ if pat[0] not in ("wild",)):
+                    for pat, res, arm in t_:
+                        if pat[0] == "variant" and res[0] == "variant" and "BoxType" in (res[1] or ""):
+                            enc[last(pat[1])] = last(res[1])
     keys = {v["name"] for v in (fx.adt_short("MetadataKey") or {"variants": []})["variants"]}
     chk.floor("R1", "metadata keys", len(keys), 4)
     chk.require(set(dec.values()) == keys, "R1", "decoder-covers", "decoder arms: %s" % dec, "the item decoder produces keys %s, the key enumeration is %s" % (sorted(set(dec.values())), sorted(keys)), site_of(fr))
@@ -168,30 +177,40 @@ def run(fx, chk, tier):
     fb = [f for f in fx.fns.values() if f["name"] == "item_to_bytes" and f["kind"] == "Fn"]
     fs = [f for f in fx.fns.values() if f["name"] == "item_to_str" and f["kind"] == "Fn"]
     if chk.anchor("R4", "item_to_u32 / item_to_bytes / item_to_str", fy and fb and fs):
-        m = tables.find_match(fy[0])
-        arms = {}
-        for a in m["arms"]:
-            p = tables.pat_norm(fx, a["pat"])
-            arms[last(p[1]) if p[0] == "variant" else p[0]] = a
+        import sval
+        payload = ("param", "item.data.data")
+
+        def is_payload(t):
+            return t[0] == "param" and t[1] == "item.data.data"
+
+        def ext(t, name):
+            return t[2] if t[0] == "ext" and t[1] == name else None
+        ty = sval.SVal(fx).eval_fn(fy[0], arg_names=["item"])
         bin_ok = txt_ok = def_ok = False
-        if "Binary" in arms:
-            a = arms["Binary"]
-            g = a.get("guard")
-            gd = hirq.dump(g) if g else ""
-            bd = hirq.dump(a["body"])
-            bin_ok = "len()" in gd and "Eq 4" in gd and "read_u32" in bd and any((n.get("fn_full") or "").startswith("<byteorder::BigEndian") for n, _ in hirq.walk(a["body"]) if n.get("k") == "call")
-        if "Text" in arms:
-            bd = hirq.dump(arms["Text"]["body"])
-            txt_ok = "from_utf8_lossy" in bd and ".parse(" in bd and ".ok()" in bd and any("parse::<u32>" in (n.get("fn_full") or "") for n, _ in hirq.walk(arms["Text"]["body"]) if n.get("k") == "mcall")
-        if "wild" in arms:
-            def_ok = hirq.dump(arms["wild"]["body"]) == "None"
-        chk.require(bin_ok, "R4", "year|binary", "Binary && len == 4 => big-endian u32", "the year accessor has no `Binary, 4 bytes, big-endian u32` branch", site_of(fy[0]))
+        if ty[0] == "table" and ty[1][0] == "param" and ty[1][1] == "item.data.data_type":
+            for pat, res, arm in ty[2]:
+                vname = last(pat[1]) if pat[0] == "variant" else pat[0]
+                if vname == "Binary" and res[0] == "guardarm":
+                    g, body_ = res[1], res[2]
+                    g_ok = g[0] == "cmp" and g[1] == "Eq" and ext(g[2], "len") and is_payload(ext(g[2], "len")[0]) and sval.const_val(g[3]) == 4
+                    rd = body_[2][0] if body_[0] == "variant" and last(body_[1]) == "Some" and body_[2] else None
+                    a = ext(rd, "<BigEndian as ByteOrder>::read_u32") if rd else None
+                    bin_ok = bool(g_ok and a and is_payload(a[0]))
+                elif vname == "Text":
+                    a = ext(res, "ok")
+                    b_ = ext(a[0], "parse::<u32>") if a else None
+                    c_ = ext(b_[0], "String::from_utf8_lossy") if b_ else None
+                    txt_ok = bool(c_ and is_payload(c_[0]))
+                elif vname in ("wild", "bind"):
+                    def_ok = res[0] == "variant" and last(res[1]) == "None"
+        chk.require(bin_ok, "R4", "year|binary", "Binary && len == 4 => big-endian u32", "the year accessor has no `Binary, 4 bytes, big-endian u32` branch (computes %s)" % sval.show(ty)[:160], site_of(fy[0]))
         chk.require(txt_ok, "R4", "year|text", "Text => decimal parse::<u32>", "the year accessor has no `Text => parse::<u32>` branch", site_of(fy[0]))
         chk.require(def_ok, "R4", "year|default", "_ => None", "the year accessor does not report absence for other data types", site_of(fy[0]))
-        bd = hirq.dump(hirq.body_root(fb[0]))
-        chk.require(bd.strip("{}") == "item.data.data", "R4", "poster", "&item.data.data", "the poster accessor returns %s instead of the stored payload" % bd, site_of(fb[0]))
-        sd = hirq.dump(hirq.body_root(fs[0]))
-        chk.require("from_utf8_lossy(item.data.data)" in sd.replace("String::", ""), "R4", "text", "UTF-8 (lossy) of item.data.data", "text accessors decode %s" % sd, site_of(fs[0]))
+        tb = sval.SVal(fx).eval_fn(fb[0], arg_names=["item"])
+        chk.require(is_payload(tb), "R4", "poster", "&item.data.data", "the poster accessor returns %s instead of the stored payload" % sval.show(tb)[:120], site_of(fb[0]))
+        ts = sval.SVal(fx).eval_fn(fs[0], arg_names=["item"])
+        a = ext(ts, "String::from_utf8_lossy")
+        chk.require(bool(a and is_payload(a[0])), "R4", "text", "UTF-8 (lossy) of item.data.data", "text accessors decode %s" % sval.show(ts)[:120], site_of(fs[0]))
     # ---------------- R5: the second child walk of the meta decoder (the one that finds ilst) restarts where the first began
     import rescan
     from callgraph import callgraph
